@@ -7,9 +7,11 @@
 
 mod engines {
 	pub mod encoding;
+	pub mod input;
 }
 mod props {
 	pub mod c07;
+	pub mod c09;
 }
 mod out;
 mod util;
@@ -33,6 +35,10 @@ fn main() {
 			"C07" => {
 				engines::encoding::run(&mut out, &mut rng.fork(), thorough);
 				props::c07::run(&mut out, &mut rng.fork(), thorough);
+			}
+			"C09" => {
+				engines::input::run(&mut out, &mut rng.fork(), thorough);
+				props::c09::run(&mut out, &mut rng.fork(), thorough);
 			}
 			_ => {
 				eprintln!("unknown property {prop}");
